@@ -4,7 +4,7 @@
     trans_ndpt_to_vec_dist).  Weighted rows: [nth i (weighted wt fmat) []]; larger is better after weighting. *)
 From Coq Require Import Permutation.
 From PV Require Import Lib.Common Model.C19_Pareto Proofs.C19_Pareto Proofs.C19_Order Proofs.C19_Dist Proofs.C19_Norm
-  Gen.C19_Kernel Proofs.C19_Kernel.
+  Gen.C19_Kernel Proofs.C19_Kernel Proofs.C19_Unit.
 Local Open Scope Q_scope.
 
 (** the while loop ends within npt iterations, for every point set and weight vector (no fuel exhaustion) *)
@@ -200,6 +200,21 @@ Theorem C19_old_sel_documented_roles_refuted : exists mat sign pref,
 Proof. exact old_sel_roles_refuted. Qed.
 Print Assumptions C19_old_sel_documented_roles_refuted.
 
+(** change of unit: expressing objective k of every point of the front in another unit (column k times c_k > 0, however small
+    or large, e.g. 2^-40) changes none of the distances, for all three functions *)
+Theorem C19_unit_invariant : forall m mat c sign pref, rectm m mat -> length c = m -> length sign = m -> Forall (fun a => 0 < a) c ->
+  tres_eq (trans_core (map (fun r => map2 Qmult r c) mat) sign pref) (trans_core mat sign pref) /\
+  tres_eq (trans_sel_prob (map (fun r => map2 Qmult r c) mat) sign pref) (trans_sel_prob mat sign pref) /\
+  tres_eq (trans_sel_fn (map (fun r => map2 Qmult r c) mat) sign pref) (trans_sel_fn mat sign pref).
+Proof. exact unit_invariant_all. Qed.
+Print Assumptions C19_unit_invariant.
+
+(** the same about the common body, for both vectors arbitrary *)
+Theorem C19_unit_invariant_body : forall m mat c mulv lin, rectm m mat -> length c = m -> length mulv = m -> Forall (fun a => 0 < a) c ->
+  tres_eq (trans_body true (map (fun r => map2 Qmult r c) mat) mulv lin) (trans_body true mat mulv lin).
+Proof. exact unit_invariant_lemma. Qed.
+Print Assumptions C19_unit_invariant_body.
+
 (** * the kernel expressions of the CURRENT source
 
     Gen/C19_Kernel.v is regenerated from pareto.py, pymoo_addon.py and the three transformation files on every run.  The
@@ -289,12 +304,19 @@ Example C19_hyps_satisfiable :
   pareto_mask [1; 1] [[1; 2]; [2; 1]; [1; 1]; [2; 1]] = Some [true; true; false; false] /\
   Forall (fun x => 0 <= x) [1 # 2; 0] /\ Exists (fun x => 0 < x) [1 # 2; 0] /\ Exists (fun x => ~ x == 0) [1; -(1)] /\
   dominates_m [1; 2] 0 [1; 3] (-(1)) = true /\ dominates_m [5; 5] (-(1)) [0; 0] (1 # 2) = true /\
-  tres_eq (trans_core [[1; 5]; [2; 5]; [4; 5]] [1; 1] [1; 1]) (TFinite [0; 1 # 18; 1 # 2]) /\
-  (* the generated kernels on the same values; a change of unit by 2^-40 *)
-  kern_pareto_idx [1; 1] [[1; 2]; [2; 1]; [1; 1]; [2; 1]] = Some [0%nat; 1%nat] /\
-  k_dominates [1; 2] 0 [1; 3] (-(1)) = true /\ ~ (1 # 1099511627776) == 0 /\
-  tres_eq (kern_body K_fn [[1; 5]; [2; 5]; [4; 5]] [1; 1] [1; 1]) (TFinite [0; 1 # 18; 1 # 2]) /\
-  tres_eq (kern_body K_prob [[1 # 1099511627776; 5]; [2 # 1099511627776; 5]; [4 # 1099511627776; 5]] [1; 1] [1; 1]) (TFinite [0; 1 # 18; 1 # 2]).
+  tres_eq (trans_core [[1; 5]; [2; 5]; [4; 5]] [1; 1] [1; 1]) (TFinite [0; 1 # 18; 1 # 2]).
 Proof.
   repeat split; try reflexivity; repeat constructor; try (unfold Qlt, Qle; cbn; lia); try (intro H; discriminate H).
+Qed.
+
+(** the generated kernels on the same values; a change of unit by 2^-40 of the first objective *)
+Example C19_kernel_hyps_satisfiable :
+  kern_pareto_idx [1; 1] [[1; 2]; [2; 1]; [1; 1]; [2; 1]] = Some [0%nat; 1%nat] /\
+  k_dominates [1; 2] 0 [1; 3] (-(1)) = true /\ ~ (1 # 1099511627776) == 0 /\ Forall (fun a => 0 < a) [1 # 1099511627776; 1] /\
+  tres_eq (kern_body K_fn [[1; 5]; [2; 5]; [4; 5]] [1; 1] [1; 1]) (TFinite [0; 1 # 18; 1 # 2]) /\
+  tres_eq (kern_body K_prob (map (fun r => map2 Qmult r [1 # 1099511627776; 1]) [[1; 5]; [2; 5]; [4; 5]]) [1; 1] [1; 1]) (TFinite [0; 1 # 18; 1 # 2]).
+Proof.
+  split; [vm_compute; reflexivity|]. split; [vm_compute; reflexivity|]. split; [intro H; discriminate H|].
+  split; [repeat constructor|].
+  split; vm_compute; repeat constructor.
 Qed.
